@@ -1,6 +1,7 @@
 //! Socket-level scenario interpreter over scripted in-memory connections.
 //!
-//! case:  ID sock TYPE [id=HEX] / op / op / ...
+//! case:  ID sock TYPE [id=HEX] [mon|mondrop] / op / op / ...
+//!        mon: monitor() was called and its receiver is kept (never drained); mondrop: the receiver has been dropped
 //! ops:   attach C PT [id=HEX] [ver=M.m] [mech=NAME] [sig=bad0|bad9] [first=ready|cmd|msg|none]
 //!                    [stype=raw:HEX] [extra=HEX] [chunks=n1,n2,..] [bg] [noid]
 //!        feed C HEX | feedq C HEX | wake C | eof C | rerr C KIND
@@ -683,9 +684,22 @@ pub fn run(args: &[&str]) -> String {
     }
     let ops: Vec<Vec<String>> = parts.map(|p| p.split_whitespace().map(|s| s.to_string()).collect()).collect();
     let stype = head[0].to_string();
+    let with_mon = head[1..].iter().any(|h| *h == "mon");
+    let with_mondrop = head[1..].iter().any(|h| *h == "mondrop");
     let out = with_rt(|rt| {
         rt.block_on(async move {
             let mut w = World { sock: Some(AnySock::new(&stype, sid)), conns: Vec::new(), out: Vec::new() };
+            let _kept_monitor = if with_mon || with_mondrop {
+                let rx = crate::rt::sock_monitor(w.sock.as_mut().unwrap());
+                if with_mon {
+                    Some(rx)
+                } else {
+                    drop(rx);
+                    None
+                }
+            } else {
+                None
+            };
             for op in &ops {
                 if op.is_empty() {
                     continue;
